@@ -43,30 +43,9 @@ def extra(tier, rng, workdir):
             failures.append({"suite": "tworun", "checker": "tworun", "step": step, "cfg": c["cfg"], "ops": c["ops"],
                              "expected": b[step] if step < len(b) else None, "observed": ta[step] if step < len(ta) else None,
                              "trace": a})
-    # vouching through the shared mempool: whatever untrusted connections announce, deliver and re-check, the
-    # mempool's trusted mark of a transaction is set only by the trusted connection (tracker component)
-    vcases = []
-    for nconn, script in ((2, [["inv", 1, 1], ["inv", 1, 1], ["body", 1, 0], ["check", 1], ["istrusted", 1], ["advance", 4000], ["check", 1], ["istrusted", 1]]),
-                          (3, [["inv", 1, 1], ["inv", 2, 1], ["inv", 2, 1], ["check", 2], ["body", 1, 0], ["check", 1], ["check", 2], ["istrusted", 1],
-                               ["advance", 3500], ["inv", 1, 2], ["inv", 2, 2], ["advance", 3500], ["check", 2], ["check", 1], ["istrusted", 2]]),
-                          (2, [["inv", 1, 1], ["inv", 1, 1], ["body", 1, 0], ["check", 1], ["istrusted", 1], ["inv", 0, 1], ["istrusted", 1]])):
-        vcases.append({"cfg": {"nconn": nconn, "txs": [[1, [9010], 0], [2, [9020], 0]]}, "ops": script})
-    vres, _ = vlib.run_harness("tracker", vcases, workdir, tag="vouch")
-    for ci, (c, tr) in enumerate(zip(vcases, vres)):
-        trusted_announced = set()
-        for i, (o, ob) in enumerate(zip(c["ops"], tr)):
-            if o[0] == "inv" and o[1] == 0:
-                trusted_announced.add(o[2])
-            if o[0] == "body" and o[2] != 0:
-                trusted_announced.add(o[1])
-            if o[0] == "istrusted":
-                want = 1 if o[1] in trusted_announced else 0
-                if list(ob) != [0, want]:
-                    failures.append({"suite": "vouch", "checker": "vouch", "step": i, "cfg": c["cfg"], "ops": c["ops"], "trace": tr,
-                                     "expected": [322], "observed": list(ob),
-                                     "what": "tx %d is marked trusted in the shared mempool although only untrusted connections announced / sent it"
-                                             % o[1] if want == 0 else "tx %d announced by the trusted peer is not marked trusted" % o[1]})
-                    break
+    vf, vn = txflow.vouch_failures(workdir)
+    failures += vf
+    vcases = [None] * vn
     # "cannot stall syncing": an untrusted peer's double spend arriving while the trusted peer's block is inside
     # ProcessBlock (pause point in the announcement): both threads must finish.  From the pipeline's race replays only
     # the ones in which the injected tx comes from the untrusted peer count here.
